@@ -25,7 +25,7 @@ REPLAYS = os.path.join(VERIF, "replays")
 RUN = os.path.join(VERIF, ".run")
 KNOWN = os.path.join(VERIF, "KNOWN_FINDINGS.txt")
 BASELINE = os.path.join(VERIF, "harness", "gen_baseline.json")
-DRIVER = os.path.join(LEAN, ".lake", "build", "bin", "driver")
+BIN = os.path.join(LEAN, ".lake", "build", "bin")
 PY = "/venv/bin/python"
 
 ALLOWED_AXIOMS = {"propext", "Classical.choice", "Quot.sound"}
@@ -148,6 +148,9 @@ class Ctx:
             {"kind": kind, "input": input, "what": what, "expected": expected, "actual": actual}
         )
 
+    def driver_target(self) -> str:
+        return f"drv_{self.prop.lower()}"
+
     # ---- Lean stage ------------------------------------------------------------------------
     def lean_stage(self, prop_modules, gen_names=None, clean=False):
         """translator -> lake build of the property's modules (and the driver) -> axiom audit"""
@@ -161,7 +164,7 @@ class Ctx:
         self.checker_cmd = (
             "cd lean && lake build "
             + " ".join(f"DmrVerif.Props.{m}" for m in prop_modules)
-            + " driver && lake env lean DmrVerif/Audit/<prop>.lean  (#print axioms of every theorem)"
+            + f" {self.driver_target()} && lake env lean DmrVerif/Audit/<prop>.lean  (#print axioms of every theorem)"
             + ("; lake env leanchecker <modules>" if self.thorough() else "")
         )
 
@@ -195,7 +198,7 @@ class Ctx:
         )
 
     def _build(self, prop_modules, clean):
-        targets = [f"DmrVerif.Props.{m}" for m in prop_modules] + ["driver"]
+        targets = [f"DmrVerif.Props.{m}" for m in prop_modules] + [self.driver_target()]
         if clean:
             # rebuild the property modules from clean: remove their build products
             for m in prop_modules:
@@ -298,10 +301,11 @@ class Ctx:
         """pipe lines through the compiled Lean model; returns one output line per input line"""
         if not lines:
             return []
-        if not os.path.exists(DRIVER):
+        exe = os.path.join(BIN, self.driver_target())
+        if not os.path.exists(exe):
             raise Infra("model driver is not built")
         data = "\n".join(lines) + "\n"
-        rc, out, err = sh([DRIVER], input=data, timeout=7200)
+        rc, out, err = sh([exe], input=data, timeout=7200)
         res = out.split("\n")
         if res and res[-1] == "":
             res.pop()
